@@ -41,20 +41,47 @@ def full_range(g, cond_node, bound_field, lo=0, search=False):
 
 
 def marking_callbacks(P):
-    """classify GC.c functions usable as `void f(var gc, void* ptr)` marking callbacks:
-    'recursing' = looks the pointer up AND traces its contents unconditionally;
-    'lookup-only' = only marks it if it is itself registered"""
+    """classify GC.c functions usable as `void f(var gc, void* ptr)` marking callbacks by evaluating them (cint) for a pointer that is
+    (a) not registered, (b) registered and unmarked, (c) registered and already marked:
+    'tracing'     = (a) traces the object's contents (GC_Recurse) — container Mark instances hand over *embedded* elements, which are
+                    never registered themselves; (b), (c) go through the registry entry (GC_Mark_Item: marks and traces once, under
+                    the mark bit) and do not trace again without a guard;
+    'unguarded'   = traces a registered pointer again outside its mark bit: two Tuples that hold each other never finish;
+    'lookup-only' = only marks the pointer if it is itself registered (GC_Mark_Item); embedded elements are not traced.
+    -> {name: (kind, detail)}"""
+    from . import cint
     out = {}
     for fname in ('GC_Mark_Item', 'GC_Mark_And_Recurse'):
         f = P.functions.get(fname)
         if f is None:
             continue
-        g = P.cfg(f)
-        # unconditional trace: a call GC_Recurse(gc, ptr-param) on every path entry->exit
-        rec = [n for (n, c) in g.nodes_calling('GC_Recurse') if ir.top_nocast(c[2][1]) == ('param', f['params'][1][0], 1)]
-        look = [n for (n, c) in g.nodes_calling('GC_Mark_Item')] or (fname == 'GC_Mark_Item')
-        uncond = bool(rec) and g.must_pass(g.exit, [n['id'] for n in rec])
-        out[fname] = 'recursing' if (uncond and look) else 'lookup-only'
+        if fname == 'GC_Mark_Item':
+            out[fname] = ('lookup-only', 'the registry lookup itself')
+            continue
+        res = {}
+        for label, registered in (('not registered', 0), ('registered', 1)):
+            ev_ = []
+
+            def call(nm, e, it, ev_=ev_, registered=registered):
+                if nm == 'GC_Mem_Ptr':
+                    return registered
+                if nm in ('GC_Mark_Item', 'GC_Recurse'):
+                    ev_.append((nm, it.ev(e[2][1])))
+                    return 0
+                raise cint.NoEval('call %s' % nm)
+            r = cint.CInt(P, f, atoms={('global', 'NULL'): 0}, call=call).run([4300, 5000])
+            res[label] = (r, list(ev_))
+        (r0, e0), (r1, e1) = res['not registered'], res['registered']
+        if r0[0] != 'ret' or r1[0] != 'ret':
+            out[fname] = ('unknown', 'not evaluated: %s' % (r0[1] if r0[0] != 'ret' else r1[1],))
+        elif ('GC_Recurse', 5000) not in e0:
+            out[fname] = ('lookup-only', 'a pointer that is not registered is not traced (%s)' % (e0,))
+        elif ('GC_Recurse', 5000) in e1:
+            out[fname] = ('unguarded', 'a registered pointer is traced outside its mark bit (%s): a cycle through a Tuple is followed for ever' % ([x[0] for x in e1],))
+        elif ('GC_Mark_Item', 5000) not in e1:
+            out[fname] = ('lookup-only', 'a registered pointer is not marked through its entry (%s)' % (e1,))
+        else:
+            out[fname] = ('tracing', 'unregistered: %s; registered: %s' % ([x[0] for x in e0], [x[0] for x in e1]))
     return out
 
 
@@ -160,10 +187,11 @@ def check_callbacks(P, ctx, tls):
                 ctx.undecided(rule, key, site(fn, ln), 'marking callback `%s` is not a known collector function' % ir.fmt(cb))
                 continue
             ctx.stats['call_sites'] += 1
-            ctx.check(kinds[cb[1]] == 'recursing', rule, key, site(fn, ln),
-                      'container Mark instances hand over *embedded* elements (allocation class data), which are never registered themselves; '
-                      'the callback must therefore trace the element\'s contents unconditionally, not only look the element up',
-                      ['callback passed: %s (%s)' % (cb[1], kinds[cb[1]]), 'call: %s' % ir.fmt(c)[:160]])
+            ctx.check(kinds[cb[1]][0] == 'tracing', rule, key, site(fn, ln),
+                      'container Mark instances hand over *embedded* elements (allocation class data), which are never registered themselves: the callback '
+                      'must trace the contents of a pointer that is not registered, and must handle a registered one through its entry only (marked and traced '
+                      'once, under the mark bit) so that marking ends on cycles',
+                      ['callback passed: %s (%s: %s)' % (cb[1], kinds[cb[1]][0], kinds[cb[1]][1]), 'call: %s' % ir.fmt(c)[:160]])
     ctx.floor(rule, 2)
 
 
@@ -550,13 +578,15 @@ def check_root_flag(P, ctx):
         f = P.fn(w)
         cs = [c for c, _ in ir.all_calls(f['body']) if ir.callee_name(c) == 'alloc_by']
         ctx.check(len(cs) == 1 and ir.top_nocast(cs[0][2][1]) == ('enum', m) and ir.top_nocast(cs[0][2][0]) == ('param', f['params'][0][0], 0), rule, w, site(f), '%s requests method %s' % (w, m))
-    # GC_Set hands the flag through
+    # GC_Set hands the flag through (evaluated: C17's evaluation of GC_Set over running/stopped x counts x sizes x thresholds x flag)
+    from .rules_c17 import eval_gc_set
     fn = P.fn(P.slot('GC', 'Get', 'set'))
-    g = P.cfg(fn)
-    N = util.Norm(P, fn)
-    cs = [(n, c) for (n, c) in g.nodes_calling('GC_Set_Ptr')]
-    ok = len(cs) == 1 and N.canon(cs[0][1][2][1]) == ('param', 1) and N.canon(cs[0][1][2][2]) == ir.canon(('call', ('func', 'c_int'), (('param', 'val', 2),)))
-    ctx.check(ok, rule, 'GC_Set:flag', site(fn), 'the registry insertion receives the registered pointer and the flag value')
+    res = eval_gc_set(P)
+    if res['unsup'] and not res['count']:
+        ctx.undecided(rule, 'GC_Set:flag', site(fn), 'GC_Set leaves the evaluated fragment: ' + res['unsup'])
+    else:
+        ctx.check(res['count'] is None, rule, 'GC_Set:flag', site(fn), 'the registry insertion receives the registered pointer and the flag value (once, after the count was raised)',
+                  [res['count']] if res['count'] else None)
     ctx.floor(rule, 5)
 
 
